@@ -266,6 +266,44 @@ def uni_battery() -> dict:
     return out
 
 
+# ---- order battery -------------------------------------------------------------------------------------------------
+# A fixed handful of calls that reach the places where a result is ASSEMBLED FROM A COLLECTION (ambiguous enum prefixes, many
+# unknown fields, several dropped sections, routed values): every fresh interpreter of the configuration grid serves them, so
+# that whether such a place is compared under another hash seed never depends on what the seeded pool happens to contain.
+
+
+def order_battery() -> list:
+    out = []
+
+    def add(api, text, schema, **kw):
+        out.append({"id": 920000 + len(out), "api": api, "doc_kind": "battery", "text": text, "schema": schema, **kw})
+
+    meta_d = '===DOC===\nMETA:\n  TYPE::TEST\n  VERSION::"1.0"\n  STATUS::D\nA::1\n===END===\n'
+    add("tool.validate", meta_d, "META", args={})
+    add("tool.validate", meta_d.replace("STATUS::D", "STATUS::DE"), "META", args={"fix": True})
+    add("tool.write", meta_d, "META", mode="content", initial=None, args={"schema": "META"})
+    add("py.validate", meta_d, "META")
+    holo = ('===DOC===\nMETA:\n  TYPE::TEST\n  VERSION::"1.0"\nTEST_HOLOGRAPHIC[→§INDEXER]:\n  NAME::thing\n  STATUS::D\n  OPTIONAL_FIELD::x\n'
+            "  ZED::1\n  ALPHA::2\n  MU::3\n===END===\n")
+    add("tool.validate", holo, "TEST_HOLOGRAPHIC", args={})
+    add("tool.write", holo, "TEST_HOLOGRAPHIC", mode="content", initial=None, args={"schema": "TEST_HOLOGRAPHIC", "lenient": True})
+    rep = ('===DOC===\nMETA:\n  TYPE::TEST\n  VERSION::"1.0"\nGEN_A:\n  NAME::["abc"∧REQ→§INDEXER]\n  KIND::AL\n  COUNT::1.0\n  TAGS::[x,alpha,x]\n'
+           "  ZED::1\n  YOT::2\n  ALPHA::3\n  OMEGA::4\n  KAPPA::5\n  MU::6\n  BETA::7\n  KIND::A\n"
+           "GEN_B[→§SELF]:\n  TITLE::Bad Title\n  LEVEL::LO\n  SIZE::true\n  ZED_B::1\n  MU_B::1\n  ALPHA_B::1\n  OMEGA_B::1\n"
+           "GEN_C:\n  CONTENT::c\n  STATUS::A\n  Status::on\n  A_B::1\n  A-B::2\n===END===\n")
+    for schema in ("GEN_A", "GEN_B", "GEN_C"):
+        add("tool.validate", rep, schema, args={})
+        add("tool.validate", rep, schema, args={"fix": True, "profile": "LENIENT"})
+    add("py.validate", rep, "GEN_A")
+    add("tool.eject", rep, "GEN_A", args={"mode": "executive", "format": "json"})
+    add("tool.eject", rep, "GEN_B", args={"mode": "developer", "format": "markdown"})
+    sectioned = ('===DOC===\nMETA:\n  TYPE::TEST\n  VERSION::"1.0"\n' + "".join(f"§{nm}::S{i}\n  V{i}::{i}\n" for i, nm in enumerate(
+        ["ZETA", "CONTEXT", "ALPHA", "RULES", "GLOSSARY", "NOTES", "LIMITS", "DEFINITIONS"])) + "§1::N1\n  W::1\n§10::N10\n  W::10\n§2::N2\n  W::2\n===END===\n")
+    add("tool.write", meta_d.replace("STATUS::D", "STATUS::DRAFT"), "META", mode="content", initial=sectioned, args={})
+    add("tool.write", None, "META", mode="changes", initial=sectioned, args={"changes": {"§CONTEXT": {"$op": "DELETE"}, "§ZETA": {"$op": "DELETE"}, "ADDED": [3, 1, 2]}})
+    return out
+
+
 # ---- pool generation ---------------------------------------------------------------------------------------------
 
 
